@@ -163,6 +163,15 @@ function __probe(text, path) {
 		default:
 			content, class = "\""+g.str()+"\"", "quoted-raw"
 		}
+		if r.Chance(12) { // text framing: what precedes / follows the value is part of the text that JSON.parse sees
+			pre := r.Pick([]string{"\uFEFF", "\uFEFF\uFEFF", " \uFEFF", "\u00A0", "\u2028", "\t\n\r ", "\x00", "\uFFFE", "\v", "\f"})
+			if r.Chance(70) {
+				content = pre + content
+			} else {
+				content = content + pre
+			}
+			class += "+framing"
+		}
 		illformed := false
 		if r.Chance(4) { // separate malformed stream: ill-formed UTF-8 bytes
 			content += string([]byte{0xff, 0xc3, 0x28, 0xed, 0xa0, 0x80})
